@@ -333,7 +333,7 @@ func enumPaths(alpha []string, maxLen int, wildLastOnly bool) []string {
 }
 
 // every set of <= 3 patterns (host a.com), every declaration order, every URL of the URL universe
-func exhaustive(emit func(proto.Case), tag string, patAlpha []string, patLen int, urlAlpha []string, urlLen int, limit int) int {
+func exhaustive(emit func(proto.Case), tag string, patAlpha []string, patLen int, urlAlpha []string, urlLen int, maxSet int) int {
 	pats := enumPaths(patAlpha, patLen, true)
 	urls := enumPaths(urlAlpha, urlLen, false)
 	var reqs []string
@@ -342,7 +342,7 @@ func exhaustive(emit func(proto.Case), tag string, patAlpha []string, patLen int
 	}
 	count := 0
 	one := func(set []int) {
-		if limit > 0 && count >= limit {
+		if len(set) > maxSet {
 			return
 		}
 		var ops []string
@@ -387,13 +387,15 @@ func gen(r *prng.R, f proto.Flags, emit func(proto.Case)) {
 	}
 	if f.Tier == "thorough" {
 		// all sets of <= 3 patterns of <= 2 path segments over {a,b,{p},*}, all orders, all URLs of <= 3 segments over {a,b,c}
-		exhaustive(emit, "xa", []string{"a", "b", "{p}", "*"}, 2, []string{"a", "b", "c"}, 3, 0)
+		exhaustive(emit, "xa", []string{"a", "b", "{p}", "*"}, 2, []string{"a", "b", "c"}, 3, 3)
 		// all sets of <= 3 patterns of <= 3 path segments over {a,{p},*}, all orders, all URLs of <= 4 segments over {a,b}
-		exhaustive(emit, "xb", []string{"a", "{p}", "*"}, 3, []string{"a", "b"}, 4, 0)
+		exhaustive(emit, "xb", []string{"a", "{p}", "*"}, 3, []string{"a", "b"}, 4, 3)
 		// two parameter names (name conflicts are build errors): <= 2 path segments over {a,b,{p},{q},*}
-		exhaustive(emit, "xc", []string{"a", "b", "{p}", "{q}", "*"}, 2, []string{"a", "b", "c"}, 3, 0)
+		exhaustive(emit, "xc", []string{"a", "b", "{p}", "{q}", "*"}, 2, []string{"a", "b", "c"}, 3, 3)
+		// all PAIRS of patterns of <= 3 path segments over {a,b,{p},*}, both orders, all URLs of <= 4 segments over {a,b}
+		exhaustive(emit, "xd", []string{"a", "b", "{p}", "*"}, 3, []string{"a", "b"}, 4, 2)
 	} else {
 		// quick: the sets of <= 2 patterns of the first universe
-		exhaustive(emit, "xa", []string{"a", "{p}", "*"}, 2, []string{"a", "b"}, 3, 0)
+		exhaustive(emit, "xa", []string{"a", "{p}", "*"}, 2, []string{"a", "b"}, 3, 3)
 	}
 }
